@@ -299,6 +299,18 @@ func Run(c *hx.Ctx) {
 		{{who: 2}, {drop: true}, {who: 3}, {drop: true}, {who: 1}},
 		{{who: 2}},
 	}
+	// the dialer's link is lost while the peer has (or has not) a second link
+	nRedial := c.N / 15
+	if nRedial < 4 {
+		nRedial = 4
+	}
+	for i := 0; i < nRedial; i++ {
+		who := 1
+		if i%4 == 3 {
+			who = 2 + c.Rng.Intn(2)
+		}
+		redialCase(c, i%2 == 0, who)
+	}
 	for i := 0; i < nLoop; i++ {
 		var es []ev
 		if i < len(loopFixed) {
@@ -827,4 +839,128 @@ var sharedFixedScripts = [][]sev{
 	{{call: 3}, {ans: 3}, {drop: true}, {call: 2}, {ans: 2}},
 	{{call: 3}, {call: 2}, {call: 4}, {ans: 4}}, // three callers
 	{{call: 2}, {call: 3}, {ans: 1}},            // nobody
+}
+
+// ---------------------------------------------------------------------------
+// re-dial after the dialer's link was lost
+
+// redialCase: the controller's transport knows peer X at address A (static peer
+// map), an EstablishLinkWithPeer(D, X) reference keeps the (X, A) dialer key
+// referenced; the dialer obtains the link at A.  With others, X has a second
+// link to D (it dials D from another endpoint B).  Then the link at A is lost
+// while who (X again, or an impostor) answers at A: the controller must dial A
+// again.
+func redialCase(c *hx.Ctx, others bool, who int) {
+	ctx, cancel := context.WithCancel(context.Background())
+	defer cancel()
+	le := quietLogger()
+	nw := qmem.NewNet()
+	ls := map[int]*listener{1: newListener(ctx, nw, 1)}
+	if who != 1 {
+		ls[who] = newListener(ctx, nw, who)
+	}
+	tb, err := testbed.NewTestbed(ctx, le, testbed.TestbedOpts{PrivKey: privs[0], NoEcho: true})
+	if err != nil {
+		panic(err)
+	}
+	defer tb.Release()
+	x := pids[1]
+	const backoffMs = 20
+	spm := map[string]*dialer.DialerOpts{x.String(): {Address: addrA, Backoff: &backoff.Backoff{
+		BackoffKind: backoff.BackoffKind_BackoffKind_CONSTANT, Constant: &backoff.Constant{Interval: backoffMs}}}}
+	dpc := nw.NewConn("D", true)
+	tch := make(chan *pconn.Transport, 1)
+	ctrl := tptc.NewController(le, tb.Bus, controller.NewInfo("verif/redial", semver.MustParse("0.0.1"), "redial"), pids[0], false,
+		func(ctx context.Context, le *logrus.Entry, pkey crypto.PrivKey, handler transport.TransportHandler) (transport.Transport, error) {
+			t, err := pconn.NewTransport(ctx, le, pkey, handler, &pconn.Opts{}, 0, dpc, parseAddr, spm)
+			if err != nil {
+				return nil, err
+			}
+			tch <- t
+			return dtpt{t}, nil
+		})
+	if _, err := tb.Bus.AddController(ctx, ctrl, nil); err != nil {
+		panic(err)
+	}
+	d := <-tch
+	nw.Route(addrA, ls[1].pc)
+	// the application wants a link to X: keeps the dialer key referenced
+	_, ref, err := tb.Bus.AddDirective(link.NewEstablishLinkWithPeer(pids[0], x), nil)
+	if err != nil {
+		panic(err)
+	}
+	defer ref.Release()
+	desc := map[string]any{"kind": "redial", "peer_has_other_link": others, "answers_at_A_after_loss": ev{who: who}.String()}
+	waitPeerAtA := func(id peer.ID, notLink link.Link, dur time.Duration) (link.Link, bool) {
+		dl := time.Now().Add(dur)
+		for time.Now().Before(dl) {
+			if cur, ok := d.LookupLinkWithAddr(addrA); ok && cur.GetRemotePeer() == id && link.Link(cur) != notLink {
+				return cur, true
+			}
+			time.Sleep(time.Millisecond)
+		}
+		return nil, false
+	}
+	first, ok := waitPeerAtA(x, nil, 5*time.Second)
+	if !ok {
+		c.Failf("static-dialer-no-link", desc, "EstablishLinkWithPeer(D, X) with a static dialer X->A did not produce a link at A")
+		return
+	}
+	for i := 0; i < 2000 && len(ctrl.GetPeerLinks(x)) < 1; i++ {
+		time.Sleep(time.Millisecond)
+	}
+	if others {
+		// X connects to D from a second endpoint B
+		bpc := nw.NewConn("B", true)
+		t2, err := pconn.NewTransport(ctx, le, privs[1], &recorder{}, &pconn.Opts{}, 0, bpc, parseAddr, nil)
+		if err != nil {
+			panic(err)
+		}
+		dctx, dcancel := context.WithTimeout(ctx, 3*time.Second)
+		_, _, derr := t2.DialPeer(dctx, pids[0], "D")
+		dcancel()
+		if derr != nil {
+			panic(fmt.Sprint("redial: second link failed: ", derr))
+		}
+		for i := 0; i < 3000 && len(ctrl.GetPeerLinks(x)) < 2; i++ {
+			time.Sleep(time.Millisecond)
+		}
+		if n := len(ctrl.GetPeerLinks(x)); n != 2 {
+			panic(fmt.Sprint("redial: expected 2 links to X, have ", n))
+		}
+	}
+	// who answers at A from now on; then the dialer's link is lost
+	nw.Route(addrA, ls[who].pc)
+	dropLink(d.Transport)
+	_, got := waitPeerAtA(pids[who], first, 2500*time.Millisecond)
+	o := int64(0)
+	if got {
+		o = int64(who + 1)
+	} else if cur, ok := d.LookupLinkWithAddr(addrA); ok {
+		o = zid(cur.GetRemotePeer())
+	}
+	desc["peer_at_A_after_redial"] = o
+	if !got {
+		c.Failf("dialer-link-lost-not-redialed", desc, "the link the (X, A) dialer obtained was lost while the dialer is still wanted, but A was not dialed again within 2.5s (%d retries worth of backoff)", 2500/backoffMs)
+	}
+	if who == 1 && got {
+		found := false
+		for i := 0; i < 1000 && !found; i++ {
+			for _, l := range ctrl.GetPeerLinks(x) {
+				if cur, ok := d.LookupLinkWithAddr(addrA); ok && l == link.Link(cur) {
+					found = true
+				}
+			}
+			time.Sleep(time.Millisecond)
+		}
+		if !found {
+			c.Failf("redialed-link-not-registered", desc, "the re-dialed link to X is not among the controller's links to X")
+		}
+	}
+	c.Case(hx.App("Redial", "2", "1", "1", hx.Bool(others), hx.List([]string{ev{who: who}.term()}), hx.Z(o)), desc)
+	c.Class("redial-after-loss")
+	if others {
+		c.Class("redial-peer-has-second-link")
+		c.Nontrivial(fmt.Sprint("r", others, who))
+	}
 }
